@@ -117,6 +117,12 @@ def cells(tier, seed):
                 out.append({"kind": "composite", "family": "lik-model", "p": p, "noise": noise, "fd": fd, "cat": k, "npts": npts})
             for fam in ("posterior", "mlp", "lik-noise"):
                 out.append({"kind": "composite", "family": fam, "p": p, "fd": fd, "cat": k, "npts": npts})
+    # facet "user-supplied pieces return fresh arrays / stored arrays / views of their argument" on the composite objects
+    for p in reversed(ps):
+        for fd in (1, 0):
+            for group in ("posterior", "mlp", "lik"):
+                out.append({"kind": "composite", "family": "alias", "group": group, "p": p, "fd": fd, "cat": k, "npts": npts,
+                            "thorough": 0 if quick else 1})
     for fd in (0, 1):
         for dim in reversed(dims):
             for fam in ("gaussian", "iid", "user"):
@@ -195,6 +201,7 @@ def eval_cell(cell):
     op_in = "gradient-fd" if fd else "gradient"
     op_out = "gradient-outside-support-fd" if fd else "gradient-outside-support"
     op_bnd = "gradient-on-boundary-fd" if fd else "gradient-on-boundary"
+    op_rep = "gradient-repeated-fd" if fd else "gradient-repeated"
     compared = 0
     if cell["kind"] == "dist":
         gens = _generators(cell)
@@ -224,16 +231,25 @@ def eval_cell(cell):
             # component, discriminated only by the class of the object (family facets would spray one defect)
             rcomp, rkeys = "Density(FD-option)", ["class"]
             rfac = {"class": component, "_fixed": facets.get("_fixed", "")}
+            if "_sig" in facets:
+                rkeys, rfac = ["class", "alias"], dict(rfac, alias=facets["alias"])
         else:
-            rcomp, rkeys, rfac = component, keys, facets
+            # '_sig': the generator names the facets that may enter a signature (cells of the aliasing facet: the member
+            # kind and the aliasing variant; prior / geometry / route are crossed with other facets in the main cells and
+            # would only spray one defect); the full variant is written into the message
+            rcomp, rkeys, rfac = component, facets.get("_sig", keys), facets
+        tell = fd or "_sig" in facets       # the message names the full variant
         # facet "representation of the evaluation point": the catalogue points above are float64 arrays; the
         # integer-valued points below are handed over in every representation of E.reps_for
         rkeys = list(rkeys) + ["xrep"]
         rfac = dict(rfac, xrep="float64")
+        caches, first = {}, {}      # per interior point: the reference derivative (computed once) / status of the first evaluation
         for kind, x in case.inside:
             res.transitions += 1
-            o = E.observe(case, kind, x, fd, FD_EPS)
-            if o["status"] == "bad" and fd:
+            caches[kind] = {}
+            o = E.observe(case, kind, x, fd, FD_EPS, cache=caches[kind])
+            first[kind] = o["status"]
+            if o["status"] == "bad" and tell:
                 o["msg"] += " {%s}" % fkey
             rec.add(rcomp, op_in, rkeys, rfac, o)
             _tally(res, component, "in", o)
@@ -241,7 +257,7 @@ def eval_cell(cell):
                 compared += 1
                 res.evaluations += 1
                 if res.sample is None and o["status"] == "ok":
-                    res.sample = {"component": component, "facets": {kk: facets[kk] for kk in facets if kk != "_fixed"},
+                    res.sample = {"component": component, "facets": {kk: facets[kk] for kk in facets if kk not in ("_fixed", "_sig")},
                                   "fd_option": fd, "point": kind, "x": x, "gradient": o["impl"],
                                   "richardson_of_logd": o["ref"]}
         # non-initial state: after the forward model's matrix was requested (get_matrix() caches it on the model), the
@@ -265,7 +281,7 @@ def eval_cell(cell):
         for kind, x in case.outside:
             res.transitions += 1
             o = E.observe_outside(case, kind, x)
-            if o["status"] == "bad" and fd:
+            if o["status"] == "bad" and tell:
                 o["msg"] += " {%s}" % fkey
             rec.add(rcomp, op_out, rkeys, rfac, o)
             _tally(res, component, "out", o)
@@ -278,7 +294,7 @@ def eval_cell(cell):
         for at, kind, x in case.boundary:
             res.transitions += 1
             o = E.observe_boundary(case, kind, x, fd, FD_EPS)
-            if o["status"] == "bad" and fd:
+            if o["status"] == "bad" and tell:
                 o["msg"] += " {%s}" % fkey
             rec.add(rcomp, op_bnd, bkeys, dict(rfac, at=at), o)
             _tally(res, component, "bnd", o)
@@ -297,13 +313,59 @@ def eval_cell(cell):
                         o = E.observe(case, kind, x, fd, FD_EPS, rep=xrep, cache=cache)
                     else:
                         o = E.observe_outside(case, kind, x, rep=xrep)
-                    if o["status"] == "bad" and fd:
+                    if o["status"] == "bad" and tell:
                         o["msg"] += " {%s}" % fkey
                     rec.add(rcomp, op_in if where == "in" else op_out, rkeys, dict(rfac, xrep=XREP_CLASS[xrep]), o)
                     _tally(res, component, where, o, xrep)
                     if o["status"] in ("ok", "bad"):
                         compared += 1
                         res.evaluations += 1
+        # repetition facet: on the same live object (after everything above) the gradient is evaluated again THREE times in
+        # a row at one interior point a, then at another point b, then at a again; every single result is judged by the
+        # same oracle (raises, or the derivative of the object's logd at that point).  Points whose first evaluation was
+        # already wrong are left out: this pass reports what depends on the history of evaluations only.
+        if case.inside:
+            seq = [case.inside[-1]] * 3
+            if len(case.inside) > 1:
+                seq += [case.inside[0], case.inside[-1]]
+            for nth, (kind, x) in enumerate(seq):
+                if first.get(kind) == "bad":
+                    res.count("repeat-left-out:first-evaluation-already-wrong")
+                    continue
+                res.transitions += 1
+                o = E.observe(case, kind, x, fd, FD_EPS, cache=caches[kind])
+                if o["status"] == "bad":
+                    o["msg"] = ("evaluation %d of the repetition a,a,a,b,a on the live object (this is point '%s'; its first evaluation: %s): %s"
+                                % (nth + 1, kind, first[kind], o["msg"])) + (" {%s}" % fkey if tell else "")
+                rec.add(rcomp, op_rep, rkeys, rfac, o)
+                _tally(res, component, "rep", o)
+                if o["status"] in ("ok", "bad"):
+                    compared += 1
+                    res.evaluations += 1
+        # the user's stored arrays (aliasing facet 'stored') must still hold what the user stored
+        if case.pieces is not None:
+            res.count("alias=%s:objects" % case.pieces.alias)
+            res.count("alias=%s:user-callables" % case.pieces.alias, len(case.pieces.names))
+            if case.pieces.alias == "view":
+                res.count("alias=view:callables-returning-a-view-of-their-argument", case.pieces.nview)
+            if case.pieces.alias == "stored" and case.pieces.stored:
+                res.count("alias=stored:arrays-stored", sum(len(s_.memo) for s_ in case.pieces.stored))
+                res.count("alias=stored:stored-array-handed-out-again", sum(s_.hits for s_ in case.pieces.stored))
+                res.evaluations += 1
+                bad = case.pieces.altered()
+                if bad:
+                    name, now, orig = bad[0]
+                    o = {"status": "bad", "cls": "input-altered", "x": None, "impl": now, "ref": orig,
+                         "msg": "after the gradient evaluations %d array(s) stored on the user's side (returned by %s) no longer hold the "
+                                "user's values, e.g. the array returned by %s was %s and is now %s {%s}"
+                                % (len(bad), ", ".join(sorted(set(b[0] for b in bad))), name,
+                                   np.array2string(np.asarray(orig).ravel()[:6], precision=6),
+                                   np.array2string(np.asarray(now).ravel()[:6], precision=6), fkey)}
+                    res.outcomes.add("%s:stored-arrays:altered" % component)
+                else:
+                    o = {"status": "ok"}
+                    res.outcomes.add("%s:stored-arrays:unchanged" % component)
+                rec.add(rcomp, op_in, rkeys, rfac, o)
     rec.emit()
     res.traces += compared      # every compared (object, point) pair: reference derivative replayed against gradient()
     if compared == 0:
@@ -328,6 +390,8 @@ def _tally(res, component, where, o, xrep=None):
             res.count("ok-in-vs-textbook-reference(logd refused)")
         if where == "in":
             res.outcomes.add("%s:in:equal%s" % (component, "" if o.get("shape_exact") else "(reshaped)"))
+        elif where == "rep":
+            res.outcomes.add("%s:repeated:equal" % component)
         elif where == "bnd":
             if o["branch"] == "finite":
                 res.count("ok-bnd:logd-finite:one-sided-derivative" + (":signed-inf-entries" if o["infinite_entries"] else ""))
@@ -352,4 +416,6 @@ def _composite_generators(cell):
         return X.gen_posterior(p, k, npts)
     if fam == "mlp":
         return X.gen_mlp(p, k, npts)
+    if fam == "alias":
+        return X.gen_alias(cell["group"], p, k, npts, bool(cell["thorough"]))
     raise ValueError(fam)
